@@ -304,6 +304,80 @@ theorem one_second_is_one_second {γ : Type} (G : Gen γ) (g : γ) (lo hi : Nat)
     simp only [P53] at hroll
     simp [decideG, P53, hm, hroll]
 
+/-! ## caller modes: which handle is readied and called
+
+`arrive c … via=clone|readyclone|swap|template`. The machine's `arrive` carries no mode, so every theorem of this file
+about `run` / `stepS` (in particular `transparent_first_poll`, `transparent_run`, `always_fails_run`,
+`error_skips_inner`, `latency_in_range_run`) holds whichever mode each request is made in. What depends on the mode —
+how many `poll_ready` calls reach the wrapped service before the request is made — is stated here, for every mode. -/
+
+theorem gateN_admits_iff (n : Nat) (sc : List Rdy) :
+    (gateN n sc).1 = true ↔ ∀ a ∈ sc.take n, a = Rdy.ready := by
+  induction n generalizing sc with
+  | zero => simp [gateN]
+  | succ n ih =>
+    cases sc with
+    | nil => simp [gateN]
+    | cons a sc => cases a <;> simp [gateN, ih]
+
+theorem gateN_ready (n : Nat) (sc : List Rdy) (h : ∀ a ∈ sc, a = Rdy.ready) : gateN n sc = (true, sc.drop n) := by
+  induction n generalizing sc with
+  | zero => simp [gateN]
+  | succ n ih =>
+    cases sc with
+    | nil => simp [gateN]
+    | cons a sc =>
+      have ha : a = Rdy.ready := h a (by simp)
+      subst ha
+      simp only [gateN, List.drop_succ_cons]
+      exact ih sc (fun b hb => h b (by simp [hb]))
+
+/-- **Readiness is forwarded, in every caller mode**: the request is made iff every `poll_ready` call of the mode
+(one; two for `readyclone`) was answered "ready" by the wrapped service itself. -/
+theorem readiness_forwarded (v : Via) (sc : List Rdy) :
+    (gate v sc).1 = true ↔ ∀ a ∈ sc.take v.polls, a = Rdy.ready :=
+  gateN_admits_iff v.polls sc
+
+/-- A wrapped service that is ready whenever asked: every request is made, in every mode, and exactly one answer
+per `poll_ready` call of the mode is used. -/
+theorem ready_service_admits (v : Via) (sc : List Rdy) (h : ∀ a ∈ sc, a = Rdy.ready) :
+    gate v sc = (true, sc.drop v.polls) :=
+  gateN_ready v.polls sc h
+
+/-- A request the wrapped service refused (pending / error) is not made: the machine is untouched, the caller sees
+`notready` — in every mode. -/
+theorem refused_request_is_not_made (cfg : Cfg) (p : Proto) (s : State) (v : Via) (c tag : Nat) (st : Step)
+    (h : (gate v p.script).1 = false) :
+    (arriveVia cfg p s v c tag st).2 = (s, [Ev.result c .notReady]) := by
+  simp [arriveVia, h]
+
+/-- **The caller mode is irrelevant to the layer**: an admitted request is the machine's `arrive`, whichever of the
+four modes it was made in (and whatever the readiness script was). -/
+theorem caller_mode_irrelevant (cfg : Cfg) (p : Proto) (s : State) (v : Via) (c tag : Nat) (st : Step)
+    (h : (gate v p.script).1 = true) :
+    (arriveVia cfg p s v c tag st).2.1 = stepS cfg s (.arrive c tag st) := by
+  simp [arriveVia, h]
+
+/-- **Transparent at rates 0/0 in every caller mode**: a request made in ANY mode `v`, over a wrapped service with
+ANY readiness script, once admitted, reaches the wrapped service in its first poll — the step is the bare inner call,
+no draw is consumed — and the strict wrapped service sees a call on an instance that reported ready (`ready=1`). -/
+theorem transparent_any_caller_mode (cfg : Cfg) (p : Proto) (s : State) (v : Via) (c tag : Nat) (st : Step) (d : Draws)
+    (he : cfg.eT = 0) (hl : cfg.lT = 0) (hg : s.gone = false) (hk : known s c = false) (ha : allowed cfg d = true)
+    (h : (gate v p.script).1 = true) :
+    let r := arriveVia cfg p s v c tag st
+    (∃ rest, (stepS cfg r.2.1 (.poll c (some d))).log = s.log ++ Ev.innerCall c s.serial :: rest) ∧
+    (r.1.strict = true → r.1.toEv (Ev.innerCall c s.serial) = Ev.innerCallX c s.serial tag true) := by
+  have h1 : (arriveVia cfg p s v c tag st).2.1 = setPhase s c (.fresh tag st) := by
+    rw [caller_mode_irrelevant cfg p s v c tag st h]; simp [stepS, hg, hk]
+  have hph : lookup (setPhase s c (.fresh tag st)).phase c = some (.fresh tag st) := by simp [setPhase, lookup]
+  refine ⟨?_, ?_⟩
+  · show ∃ rest, (stepS cfg (arriveVia cfg p s v c tag st).2.1 (.poll c (some d))).log = _
+    rw [h1]
+    exact (transparent_first_poll cfg (setPhase s c (.fresh tag st)) c tag st d he hl hph ha).2
+  · intro hs
+    simp [arriveVia, h, Proto.toEv, lookup] at hs ⊢
+    simp [hs]
+
 /-! ## many threads on clones of one service
 
 Assumption (not proved here, it is a property of `std::sync::Mutex`): the rolls of one request are
